@@ -174,6 +174,13 @@ theorem roundWeekInternal_ok_valid (d y r : Int) (hd : isValidDate d) (h : Date.
 theorem roundMonthStartWeekInternal_ok_valid (d day r : Int) (hd : isValidDate d)
     (h : Date.roundMonthStartWeekInternal d day = .ok r) : isValidDate r := applyWeekTable_ok_valid _ _ _ _ hd h
 
+/-- the half-day shift written as an expression (`if … { date.add_days(1) } else { Ok(date) }`) of a valid date -/
+theorem ite_addDays_ok_valid (c : Prop) [Decidable c] (d k r : Int) (hd : isValidDate d)
+    (h : (if c then Date.addDays d k else Except.ok d) = .ok r) : isValidDate r := by
+  split at h
+  · exact addDays_ok_valid _ _ _ h
+  · cases h; exact hd
+
 /-- the two internal helpers of the week roundings as the `Timestamp` units call them: on a valid date with the year /
     the day of the month of that date (their CONTRACT hypotheses then hold) -/
 theorem round_week_internal_safe_of_valid (d : Int) (hd : isValidDate d) :
@@ -194,7 +201,9 @@ set_option hygiene false in
 macro "tr_ts_sfacts" : tactic => `(tactic| (
   try (rename_i hcase
        with_reducible first
-       | (have hv1 := addDays_ok_valid _ _ _ hcase
+       | ((first
+            | have hv1 := addDays_ok_valid _ _ _ hcase
+            | have hv1 := ite_addDays_ok_valid _ _ _ _ (by with_reducible assumption) hcase)
           have hr1 := valid_date_range _ hv1
           have hx1 := extract_valid _ hv1
           have hf1 := first_of_year_le _ hv1)
@@ -214,6 +223,7 @@ macro "tr_ts_sauto" : tactic => `(tactic| (
   repeat' (first
     | exact True.intro
     | tr_ts_scite
+    | dsimp only
     | with_reducible apply And.intro
     | with_reducible intro _
     | (split <;> tr_ts_sfacts))
@@ -386,7 +396,7 @@ macro "tr_ts_sauto" : tactic => `(tactic| (
   | (unfold Tr.Timestamp.round_day_safe
      have hb := (isValidTimestamp_iff ts).1 hts
      have hv := ts_date_valid ts hts
-     have hr := valid_date_range _ hv
+     have hv' := ts_extract_date_valid ts hts
      tr_ts_sauto)
 
 @[tr_safe] theorem Timestamp.round_hour_safe (ts : Int) (hts : isValidTimestamp ts) : Tr.Timestamp.round_hour_safe ts := by
